@@ -49,6 +49,19 @@ extern "C" void harness_main() {
       placed.push_back(uid[(size_t)i + 1]);
     }
   }
+  // optionally one term is renamed WITHOUT substituting its mentions (a legal call): definitions that mentioned it keep a
+  // name that no longer resolves, i.e. they lose that dependency
+  int renamed = -1;
+#ifdef RENAME
+  {
+    // aliases D11.. first (ordinary renames with substitution), so that the name left dangling below cannot be captured by the
+    // renumbering D1.. of the extracted schema (capture of dangling names is a separate matter)
+    for (int k = 1; k <= NV; ++k) (void)src.SetAliasFor(uid[(size_t)k], "D1" + std::to_string(k), true);
+    for (const auto u : src.List()) (void)src.RSLang().Graph().InputsFor(u);     // the dependency graph has been looked at
+    const int r = pick(NV + 1, "renamed-without-substitution");
+    if (r > 0 && src.SetAliasFor(uid[(size_t)r], "D9", false)) renamed = r - 1;
+  }
+#endif
   std::vector<int> order;                                     // index (0 = X1, k = Dk) in list order
   for (const auto u : src.List()) for (int k = 0; k <= NV; ++k) if (uid[(size_t)k] == u) order.push_back(k);
   sym_assert((int)order.size() == NV + 1, "source-list-complete");
@@ -57,7 +70,7 @@ extern "C" void harness_main() {
     mask = 0;
     if (k == 0 || k - 1 == emptyOne) return;
     mask |= 1u;
-    for (int j = 0; j < NV; ++j) if (dep[k - 1][j]) mask |= 1u << (j + 1);
+    for (int j = 0; j < NV; ++j) if (dep[k - 1][j] && j != renamed) mask |= 1u << (j + 1);
   };
   auto compare = [&](const RSForm& res, unsigned expectMask, const char* what) {
     std::vector<int> expectOrder;
